@@ -10,10 +10,20 @@ def solve(task):
     out = {"name": name, "verdict": "unknown", "backend": "z3-5.1(api)", "seconds": 0.0, "model": None, "reason": ""}
     try:
         import z3
-        s = z3.Solver()
-        s.set("timeout", timeout_ms)
+        # pass 1: E-matching only (fast, complete enough for the trigger-annotated VCs); pass 2: default configuration
+        s = z3.SolverFor("ALL") if False else z3.Solver()
+        s.set("timeout", min(timeout_ms, 5000))
+        s.set("auto_config", False)
+        s.set("mbqi", False)
         s.from_string(smt2)
         r = s.check()
+        if r != z3.unsat:
+            s = z3.Solver()
+            s.set("timeout", timeout_ms)
+            s.from_string(smt2)
+            r = s.check()
+        else:
+            out["backend"] = "z3-5.1(api,ematching)"
         if r == z3.unsat:
             out["verdict"] = "proved"
         elif r == z3.sat:
